@@ -255,6 +255,31 @@ def props_of(rng, cls, m, pat, grid):
             if a != 1.0 and best is None:
                 best = ps
         return best or [0.1] * m
+    if cls == 'decimal':
+        # decimal proportions (tenths) whose DECIMAL sum is exactly 1: in binary the residual 1 - f1 - f2 ... handed to the helper is a
+        # tiny non-zero number of either sign (e.g. 1 - 0.9 - 0.1 = -2.8e-17), so ad-mixed frequencies just below 0 / above 1 occur for
+        # vectors the code must accept; negative residuals are preferred
+        best = None
+        for _ in range(400):
+            cuts = sorted(rng.randint(0, 10) for _ in range(m - 1)) if m > 1 else []
+            parts = [b_ - a_ for a_, b_ in zip([0] + cuts, cuts + [10])]
+            ps = [k / 10 for k in parts]
+            if m == 1:
+                ps = [rng.choice([0.1, 0.3, 0.7, 0.9])]
+            if len(pat) >= 2:
+                fs = helper_args(pat, ps); t = fs[0]
+                for f in fs[1:]:
+                    t = t + f
+                if t > 1:
+                    continue
+            if sum(ps) > 1:
+                continue
+            cs = coefs(pat, ps)
+            if any(-1e-15 < a < 0 for a in cs):
+                return ps
+            if best is None and any(0 < abs(a) < 1e-15 for a in cs):
+                best = ps
+        return best or ([0.9, 0.1] + [0.0] * m)[:m]
     if cls == 'above':
         ps = simplex(rng, m, face=True)
         j = rng.randrange(m)
@@ -262,7 +287,7 @@ def props_of(rng, cls, m, pat, grid):
         return ps
     raise ValueError(cls)
 
-CLASSES = ['zero', 'onehot', 'interior', 'face', 'ongrid', 'ulp', 'above']
+CLASSES = ['zero', 'onehot', 'interior', 'face', 'ongrid', 'ulp', 'decimal', 'above']
 
 # densities.  Every operator of PhiManip is linear and the theorems of Props/C06.v are stated for arbitrary real
 # densities (dadi's integrators return negative cells routinely), so every function sees every kind on every run.
@@ -310,7 +335,7 @@ def density(rng, n, kind):
         return [x * sc for x in v]
     raise ValueError(kind)
 
-VALID = ['zero', 'onehot', 'interior', 'face', 'ongrid', 'ulp']      # classes the code must accept
+VALID = ['zero', 'onehot', 'interior', 'face', 'ongrid', 'ulp', 'decimal']      # classes the code must accept
 
 def admix_case(rng, quick, op, k, name, d, dest, pat, cls, dens, shared, **extra):
     """one call of a pulse function / constructor: proportion class x density kind x (shared | per-axis) grids"""
@@ -437,6 +462,22 @@ def marg(a, g, axis):
 def in_simplex(ps):
     return all(p >= 0 for p in ps) and sum(Fraction(p) for p in ps) <= 1
 
+def model_ps(c):
+    """proportions handed to the exact model and used by the exact acceptance predicates.  For the 'decimal' class the float64
+    values of e.g. (0.9, 0.1) sum to 1 + 2.8e-17 as real numbers although every float evaluation of the source (0.9 + 0.1 > 1 ?)
+    sees exactly 1: the implementation receives the decimal values, the exact side receives the same vector with its largest
+    entry lowered by the fewest ulps that make the exact sum <= 1 (a perturbation <= 2.3e-16, far below the 1e-10 tolerance:
+    the deposit is continuous in the proportions)."""
+    ps = list(c['ps'])
+    if c.get('cls') != 'decimal' or not ps:
+        return ps
+    j = max(range(len(ps)), key=lambda i: ps[i])
+    for _ in range(8):
+        if sum(Fraction(p) for p in ps) <= 1:
+            break
+        ps[j] = float(np.nextafter(ps[j], 0.0))
+    return ps
+
 def _rec(ctx, dev, sc):
     """largest deviation of a conservation predicate that holds, relative to its scale (evidence: margin to 1e-12)"""
     if 0 < dev <= PTOL * sc:
@@ -452,10 +493,10 @@ def predicates(ctx, c, r):
     sc = max(abs(x) for x in c['phi']) or 1.0
     ps = c['ps']
     if op in ('pulse', 'cons') and NPROPS[c['fn']] > 0:
-        above = sum(Fraction(p) for p in ps) > 1
+        above = sum(Fraction(p) for p in model_ps(c)) > 1
         if above and not r['raised'] and op == 'pulse':
             bad.append(('%s accepts proportions %r summing above 1 (no ValueError)' % (c['fn'], ps), 'sum-above-one-not-rejected:' + c['fn']))
-        if in_simplex(ps) and r['raised']:
+        if in_simplex(model_ps(c)) and r['raised']:
             bad.append(('%s rejects the proportion vector %r, which lies in the simplex: %s' % (c['fn'], ps, r.get('error')), None))
         if above or r['raised']:
             return bad
@@ -553,7 +594,7 @@ def coq_case(c, r, valcmp):
     concl = bool(valcmp and op in ('pulse', 'cons') and (c.get('shared') or c['fn'] not in OTHER_GRID))
     return ('{| mc_op := %s; mc_shape := %s; mc_grids := [%s]; mc_ps := %s; mc_phi := %s; mc_valcmp := %s; mc_concl := %s; mc_raised := %s; '
             'mc_ishape := %s; mc_impl := %s |}') % (
-        optxt, natl(c['shape']), '; '.join(zzl(g) for g in c['grids']), zzl(c['ps']), zzl(c['phi']), b(valcmp), b(concl), b(r['raised']),
+        optxt, natl(c['shape']), '; '.join(zzl(g) for g in c['grids']), zzl(model_ps(c)), zzl(c['phi']), b(valcmp), b(concl), b(r['raised']),
         natl(r['shape']) if valcmp else '[]', zzl(r['res']) if valcmp else '[]')
 
 def strip(c):
@@ -605,7 +646,7 @@ def run(ctx):
         if r.get('crashed'):
             ctx.obligation('%s case %d runs' % (c['fn'], c['id']), False, 'predicate', r['error'])
             ctx.violation('%s raised %s (proportions %r)' % (c['fn'], r['error'], c['ps']), data={'case': strip(c), 'impl': r})
-            ctx.violations[-1]['prio'] = 0 if in_simplex(c['ps']) else 1
+            ctx.violations[-1]['prio'] = 0 if in_simplex(model_ps(c)) else 1
             continue
         finite = r['raised'] or all(math.isfinite(x) for x in r['res'])
         # --- property predicates on the implementation
@@ -625,7 +666,7 @@ def run(ctx):
             reported.add(tag)
             ctx.violation(what, data={'case': strip(c), 'impl': r}, key=key)
         # --- correspondence
-        above = c['op'] in ('pulse', 'cons') and NPROPS[c['fn']] > 0 and sum(Fraction(p) for p in c['ps']) > 1
+        above = c['op'] in ('pulse', 'cons') and NPROPS[c['fn']] > 0 and sum(Fraction(p) for p in model_ps(c)) > 1
         valcmp = finite and not above and not r['raised']
         exprs.append((c['id'], coq_case(c, r, valcmp)))
     hdr = ('From Coq Require Import String.\nFrom Coq Require Import ZArith QArith List.\n'
